@@ -428,7 +428,7 @@ func genC08(rng *mrand.Rand, id string, p, e, a int, enc string) c08Case {
 	for i := range s.Parts {
 		s.Parts[i].Content = gen.CanonLF(stripLoneCR(s.Parts[i].Content))
 		if rng.Intn(4) == 0 {
-			s.Parts[i].Desc = "a part description"
+			s.Parts[i].Desc = gen.Pick(rng, []string{"a part description", "Beschreibung mit Ümlaut", "説明 of the part", "a part description"})
 		}
 	}
 	fix := func(fs []gen.FileSpec) {
@@ -462,7 +462,7 @@ func genC08(rng *mrand.Rand, id string, p, e, a int, enc string) c08Case {
 
 func runC08(r *ev.Run, rep *ev.ReplayDoc) ev.Summary {
 	sum := ev.Summary{
-		Rule: "S/MIME-signed messages over enumerated shapes (parts 0-3 x embeds 0-2 x attachments 0-2) and random specs with canonical-CRLF content, every transfer encoding per part and file, part descriptions, empty generic headers, address lists emptied by the IgnoreInvalid setters, (multi-line) preformatted headers, long folded headers, signing configured through SignWithTLSCertificate, signing configured after the message has been rendered unsigned, message middlewares that change the body / a header / the part encoding / add an attachment, RSA-2048 and ECDSA-P256 signer certificates with and without the intermediate, also leaves whose own certificate is signed ecdsa-with-SHA384 by a P-384 CA, and a leaf that has the same serial number as its issuing intermediate; each message rendered twice, and a third time after further builder calls (add an alternative / attachment / embed, change subject or header, replace the body, add a recipient). The harness splits multipart/signed with its own MIME reader and verifies the detached CMS SignedData with its own verifier; openssl smime -verify cross-checks (all cases in quick, a sample in thorough). distinct by (shape, features)",
+		Rule: "S/MIME-signed messages over enumerated shapes (parts 0-3 x embeds 0-2 x attachments 0-2) and random specs with canonical-CRLF content, every transfer encoding per part and file, part and file descriptions that need encoded-words under every message encoding and charset, empty generic headers, address lists emptied by the IgnoreInvalid setters, (multi-line) preformatted headers, long folded headers, signing configured through SignWithTLSCertificate, signing configured after the message has been rendered unsigned, message middlewares that change the body / a header / the part encoding / add an attachment, RSA-2048 and ECDSA-P256 signer certificates with and without the intermediate, also leaves whose own certificate is signed ecdsa-with-SHA384 by a P-384 CA, and a leaf that has the same serial number as its issuing intermediate; each message rendered twice, and a third time after further builder calls (add an alternative / attachment / embed, change subject or header, replace the body, add a recipient). The harness splits multipart/signed with its own MIME reader and verifies the detached CMS SignedData with its own verifier; openssl smime -verify cross-checks (all cases in quick, a sample in thorough). distinct by (shape, features)",
 		Assumptions: []string{
 			"the signed entity is the first body part exactly as emitted, without the CRLF that belongs to the following delimiter (RFC 1847)",
 			"trust in the harness CMS verifier is established per run against OpenSSL 3 on every cross-checked message (a disagreement in the accepting direction is a harness error)",
@@ -518,6 +518,30 @@ func runC08(r *ev.Run, rep *ev.ReplayDoc) ev.Summary {
 			c.Features = []string{f}
 			c.OpenSSL = true
 			cases = append(cases, c)
+		}
+	}
+	// header values of the signed part that are encoded on every render (part and file descriptions, file names), under
+	// every message encoding (it selects the encoded-word flavour) and charset, both key types
+	for _, enc := range msgEncs {
+		for _, cs := range []string{"", "ISO-8859-1", "ISO-8859-15", "US-ASCII"} {
+			for _, k := range []string{"rsa", "ecdsa"} {
+				n++
+				rng := r.Rng("c08d", n)
+				c := genC08(rng, fmt.Sprintf("c08-d%d", n), 1+n%2, n%2, (n/2)%2, enc)
+				c.Spec.SMIME, c.Spec.Charset = k, cs
+				for i := range c.Spec.Parts {
+					c.Spec.Parts[i].Desc = gen.Pick(rng, []string{"Beschreibung mit Ümlaut", "説明 of the part", "déjà vu – description"})
+				}
+				for i := range c.Spec.Embeds {
+					c.Spec.Embeds[i].Desc = "Bild für den Text"
+				}
+				for i := range c.Spec.Attach {
+					c.Spec.Attach[i].Desc = "Anhang – größer"
+				}
+				c.Features = nil
+				c.OpenSSL = n%3 == 0
+				cases = append(cases, c)
+			}
 		}
 	}
 	// a caller-defined boundary on every multi-leaf shape, both key types
